@@ -14,7 +14,10 @@ structure Parsed where
   script : Script
   hasRefuse : Bool
 
-def parseLives (s : String) : Option (List (Ending × List Attempt) × Bool) :=
+def parseLives (s0 : String) : Option (List (Ending × List Attempt) × Bool) :=
+  -- `smonce!`: the server advertises stream management on the first connection only (the model does not distinguish;
+  -- the oracle then expects no resumed session)
+  let s := if s0.startsWith "smonce!" then (s0.drop 7).toString else s0
   if s == "-" then some ([], false) else
   (s.splitOn ";").foldlM (fun (acc : List (Ending × List Attempt) × Bool) life =>
     match life.splitOn ":" with
@@ -41,7 +44,7 @@ def str (m : List (String × String)) (k : String) : String := (m.lookup k).getD
 /-- oracle on the harness observation: exactly one new working session per loss, post-connect once per session,
 receiving and sending work on every session, no connection beyond the scripted attempts (no storm), a permanent
 error ends the loop, Stop makes Run return -/
-def holds (sm : Bool) (first : Attempt) (sc : Script) (hasRefuse : Bool) (m : List (String × String)) : Bool :=
+def holds (sm : Bool) (first : Attempt) (sc : Script) (hasRefuse : Bool) (m : List (String × String)) (smOnce : Bool := false) : Bool :=
   let r := run sc
   if first != .ok then
     str m "firstret" == "true" && nat m "sessions" == 0 && nat m "conns" == 1 && nat m "later" == 1 &&
@@ -52,7 +55,7 @@ def holds (sm : Bool) (first : Attempt) (sc : Script) (hasRefuse : Bool) (m : Li
     nat m "later" == nat m "conns" && nat m "unexpected" == 0 &&
     (hasRefuse || nat m "conns" == r.attempts) &&
     str m "stop" == "true" &&
-    nat m "resumed" == (if sm then r.sessions - 1 else 0)
+    nat m "resumed" == (if sm && !smOnce then r.sessions - 1 else 0)
 
 def step (_ : Unit) (fields : List String) (impl : String) : Unit × Reply :=
   match fields with
@@ -62,7 +65,7 @@ def step (_ : Unit) (fields : List String) (impl : String) : Unit × Reply :=
     | some (some first), some (lives, hasRefuse) =>
       let sc : Script := ⟨first, lives⟩
       let r := run sc
-      let ok := holds sm first sc hasRefuse (kvs impl)
+      let ok := holds sm first sc hasRefuse (kvs impl) (l.startsWith "smonce!")
       let ms := "sessions=" ++ toString r.sessions ++ " post=" ++ toString r.postConnect ++ " attempts=" ++ toString r.attempts ++
         " gaveup=" ++ boolStr r.gaveUp ++ " firstfailed=" ++ boolStr r.firstFailed
       ((), ⟨ms, ok, true, ok, "-"⟩)
